@@ -198,7 +198,7 @@ theorem sys_pure_caches_correct (cfg : SysCfg) (ops : List SysOp) (cid : CacheId
 theorem bindings_follow_lsb0 (cfg : SysCfg) (hs : SameKeys cfg) (ops : List SysOp) (k : String × String) :
     tableFind (sysRun cfg (Sys.init cfg) ops).1.bindings k
       = tableLast (cfg.table (sysRun cfg (Sys.init cfg) ops).1.opts.lsb0) k :=
-  bindings_run cfg hs ops (Sys.init cfg) (bindings_init cfg hs) k
+  bindings_run cfg hs ops (Sys.init cfg) (bindings_init cfg) k
 
 /-- `set_lsb0_tables_inverse`: in the working tree, every (class, attribute) re-bound by the lsb0 table is
     re-bound by the msb0 table and vice versa (tables re-extracted from bitstring_options.py on every run). -/
@@ -215,7 +215,7 @@ theorem method_dispatch_pure_gen (cfg : SysCfg) (h₁ : cfg.tblLsb0 = Gen.lsb0Ta
     (ops : List SysOp) (bound : Option String) (o : Opts) (k : String × String)
     (h : SysOut.method bound o k ∈ (sysRun cfg (Sys.init cfg) ops).2) :
     bound = tableLast (cfg.table o.lsb0) k :=
-  sys_method_pure cfg (gen_same_keys cfg h₁ h₂) ops (Sys.init cfg) (bindings_init cfg (gen_same_keys cfg h₁ h₂)) bound o k h
+  sys_method_pure cfg (gen_same_keys cfg h₁ h₂) ops (Sys.init cfg) (bindings_init cfg) bound o k h
 
 /-- The hypothesis is needed: with an attribute re-bound by the lsb0 table only, switching lsb0 on and off again
     leaves the lsb0 method bound. -/
